@@ -37,6 +37,22 @@ theorem C02_deser_consumed_le (p : Deser.Prog) (b : Bytes) (h : (Deser.runProg p
     (Deser.runProg p b).n ≤ b.length :=
   ((Deser.prog_A p b).ok h).1
 
+/-- **The offset `Done()` reports never exceeds the input — also next to an error** (the readers of a
+length prefix advance before they validate what it denotes; the sequence readers fail in the middle of
+their elements), for every chain and every byte string, without any hypothesis.  It is also why
+`RemainingBytes()` (`d.src[d.offset:]`, primitive `rem`) can be evaluated at every point of a chain. -/
+theorem C02_deser_offset_le (p : Deser.Prog) (b : Bytes) : (Deser.runProg p b).n ≤ b.length :=
+  Deser.prog_le p b
+
+/-- the offsets next to an error: behind the prefix of a refused length, behind the elements read so far -/
+example :
+    (Deser.runProg (.cons (.num 2) (.cons (.vbs .u8 0 0) .nil)) [1, 2, 9, 0]).res = .err ∧
+    (Deser.runProg (.cons (.num 2) (.cons (.vbs .u8 0 0) .nil)) [1, 2, 9, 0]).n = 3 ∧
+    (Deser.runProg (.cons (.seq .u8 true 0 0 1 (.cons (.num 1) .nil)) .nil) [3, 7, 8, 7]).n = 4 ∧
+    (Deser.runProg (.cons (.seq .u8 false 0 0 0 (.cons (.num 2) .nil)) .nil) [3, 7, 8, 7]).n = 3 ∧
+    (Deser.runProg (.cons (.str .u8 0 1 ) .nil) [2, 65, 66, 67]) = ⟨.err, 3, [], ⟨2, 0⟩⟩ := by
+  decide
+
 /-- **Allocation is linear in the input**, with the explicit constant `K p = 1 + nesting depth of
 sequences` (an element of a validated sequence is copied once more per level for the uniqueness
 check), whatever the outcome; and a successful chain allocated at most `K` bytes per byte consumed. -/
@@ -57,7 +73,7 @@ theorem C02_iters_linear (p : Deser.Prog) (hp : p.pos = true) (b : Bytes) :
 any allocation, for every prefix width and every min/max setting. -/
 theorem C02_oversized_length_allocates_nothing (lp : LP) (mn mx : Nat) (b : Bytes) (len w : Nat)
     (hl : Deser.readSliceLength lp b = (.ok, len, w)) (hbig : (b.drop w).length < len) :
-    Deser.runPrim (.vbs lp mn mx) b = Deser.dfail {} ∧ Deser.runPrim (.str lp mn mx) b = Deser.dfail {} := by
+    Deser.runPrim (.vbs lp mn mx) b = Deser.derr w {} ∧ Deser.runPrim (.str lp mn mx) b = Deser.derr w {} := by
   constructor
   · simp only [Deser.runPrim, hl]
     repeat' (first | split | rfl)
@@ -208,6 +224,45 @@ theorem C02_stream_iters_linear (p : Stream.RProg) (hp : p.pos = true) (rd : Str
     (Stream.runProg p rd).cost.iters ≤ p.K * (rd.rest.length + 1) :=
   (Stream.prog_I p hp rd).all
 
+/-- A seekable reader (`stream.ByteReader`) driven by reader programs between `GoTo` / `Skip` / `Offset`
+calls never panics, wherever the seeks put the position (beyond the data included). -/
+theorem C02_stream_seek_no_panic (sp : List Stream.SOp) (d : Bytes) (pos : Nat) :
+    (Stream.runS sp d pos).res ≠ .panic := by
+  induction sp generalizing pos with
+  | nil => simp [Stream.runS]
+  | cons op rest ih =>
+    cases op with
+    | run p =>
+      simp only [Stream.runS]
+      have hnp := C02_stream_no_panic p ⟨d.drop pos, []⟩
+      split
+      · exact ih _
+      · simp only
+        exact hnp
+    | goto n =>
+      simp only [Stream.runS]; split
+      · simp
+      · exact ih _
+    | skip n =>
+      simp only [Stream.runS]; split
+      · simp
+      · exact ih _
+    | off => simp only [Stream.runS]; exact ih _
+    | bread => simp only [Stream.runS]; exact ih _
+
+/-- `ByteReader.BytesRead` never reports more than the reader was given, whatever was sought. -/
+theorem C02_stream_bytesRead_le (rest : List Stream.SOp) (d : Bytes) (pos : Nat) :
+    ∃ k r, (Stream.runS (.bread :: rest) d pos).vals = .size k :: r ∧ k ≤ d.length := by
+  exact ⟨min pos d.length, _, rfl, Nat.min_le_right _ _⟩
+
+/-- Non-vacuity: read, look at the offset, go back, read again, seek beyond the end. -/
+example :
+    let sp : List Stream.SOp := [.run (.cons (.bws .u8) .nil), .off, .bread, .goto 0, .run (.cons (.num 1) .nil), .goto 9, .bread,
+      .run (.cons (.num 1) .nil)]
+    (Stream.runS sp [2, 7, 8, 9] 0).res = .err ∧ (Stream.runS sp [2, 7, 8, 9] 0).pos = 9 ∧
+    (Stream.runS sp [2, 7, 8, 9] 0).vals = [.bytes [7, 8], .size 3, .size 3, .bytes [2], .size 4] := by
+  decide
+
 /-- Non-vacuity: a collection of sized byte strings read through 1-byte chunks. -/
 example :
     let p : Stream.RProg := .cons (.coll .u16 (.cons (.bws .u8) .nil)) .nil
@@ -337,7 +392,7 @@ field).  (The clause for serix binary `Decode` over registered types is `C02b`.)
 def C02_statement : Prop :=
   (∀ (p : Deser.Prog) (b : Bytes), p.static = true →
       (Deser.runProg p b).res ≠ .panic ∧
-      ((Deser.runProg p b).res = .ok → (Deser.runProg p b).n ≤ b.length) ∧
+      (Deser.runProg p b).n ≤ b.length ∧
       (Deser.runProg p b).cost.alloc ≤ p.K * (b.length + 1) ∧
       (p.pos = true → (Deser.runProg p b).cost.iters ≤ p.K * (b.length + 1))) ∧
   (∀ (p : Stream.RProg) (rd : Stream.Rd),
@@ -348,7 +403,7 @@ def C02_statement : Prop :=
   (∀ (validate : Bool) (t : JsonDec.JTy) (j : JsonDec.Json), JsonDec.dec ⟨true, validate⟩ t j ≠ .panic)
 
 theorem C02_all : C02_statement := by
-  refine ⟨fun p b hs => ⟨C02_deser_no_panic p hs b, C02_deser_consumed_le p b, ?_, fun hp => (C02_iters_linear p hp b).1⟩,
+  refine ⟨fun p b hs => ⟨C02_deser_no_panic p hs b, C02_deser_offset_le p b, ?_, fun hp => (C02_iters_linear p hp b).1⟩,
     fun p rd => ⟨C02_stream_no_panic p rd, C02_stream_consumed_le p rd, ?_, fun hp => C02_stream_iters_linear p hp rd⟩,
     C02_json_no_panic⟩
   · have := (C02_alloc_linear p b).1
